@@ -247,6 +247,7 @@ REVIEWED = [
      'FuncDecl nodes go to _parse_function_type whose only return is a RawFunctionType', func_decl_returns_raw),
     ('cparser:Parser._get_struct_union_enum_type', 'raise', 'AssertionError', None, 'every call site passes a literal kind', callers_pass_literal_kind),
     ('cparser:Parser._parse_constant', 'ord', 'TypeError', 'ord(s[-2])', 'guarded by the length tests on s', char_const_length_guard),
+    ('cparser:Parser._parse_constant', 'ord', 'TypeError', 'ord(s[2])', 'guarded by the length tests on s (a single character of a 4-character constant)', char_const_length_guard),
     ('model:global_cache', 'assert', 'AssertionError', 'assert not kwds', 'all callers pass at most key=', global_cache_callers_pass_only_key),
     ('model:PrimitiveType.__init__', 'assert', 'AssertionError', 'assert name in self.ALL_PRIMITIVE_TYPES',
      'callers pass literal keys of the table or test membership first', primitive_names_are_literals_or_tested),
